@@ -136,7 +136,16 @@ func acceptKey(acc []accept) string {
 func Run(name string, sc Scenario, mode Mode, opts verifmc.Options, faults func(op, kind string, id uint64) int) (*verifmc.Sched, *explore.Result) {
 	res := &explore.Result{Counts: map[string]int64{}, Flags: map[string]bool{}}
 	dir := crashfs.New()
-	dir.Faults = faults
+	opened := false
+	if faults != nil {
+		// faults are offered once the writer is open
+		dir.Faults = func(op, kind string, id uint64) int {
+			if !opened {
+				return 0
+			}
+			return faults(op, kind, id)
+		}
+	}
 	var clk harness.Clock
 	var recs []batchRec
 	nb := len(sc.Pre)
@@ -197,6 +206,7 @@ func Run(name string, sc Scenario, mode Mode, opts verifmc.Options, faults func(
 		if err != nil {
 			verifmc.Fail("open: " + err.Error())
 		}
+		opened = true
 		for id, spec := range sc.Pre {
 			apply(id, spec)
 		}
@@ -217,6 +227,7 @@ func Run(name string, sc Scenario, mode Mode, opts verifmc.Options, faults func(
 			verifmc.Fail("close: " + err.Error())
 		}
 	})
+	res.Counts["async_errors_in_this_execution"] = int64(asyncErrs)
 	if s.Failure != "" {
 		return s, res
 	}
